@@ -1,5 +1,5 @@
 import BHS.Props.C08
-import BHS.Props.SqlShape
+import BHS.Props.SqlShape.Page
 import BHS.Props.MerkleRootsGen
 open BHS.Props.C08
 #print axioms walk_from
